@@ -16,6 +16,7 @@
 import Gts.Gen.FeatRepair
 import Gts.Lemmas.GoList
 import Gts.Lemmas.Repair
+import Gts.Lemmas.RepairIndex
 namespace Gts.Bridge
 open Gts
 
@@ -160,5 +161,220 @@ theorem compactLoop_isSome_congr : ∀ (js : List Nat) (gg gg' : Table) (i : Nat
       · rw [if_pos hi, if_pos (show i < gg'.length by omega)]
         exact compactLoop_isSome_congr js _ _ (i + 1) (by simp only [List.length_set]; exact h)
       · rw [if_neg hi, if_neg (show ¬ i < gg'.length by omega)]
+
+/-! ### one class -/
+
+/-- `list.Slice()`: the pushed list, or `[nil]` for the empty `LocationList` -/
+def sliceN (nil : Loc) (p : List Loc) : List Loc := if p.isEmpty then [nil] else p
+
+/-- one iteration of `for _, indices := range index` with the nil `Location` as a value (the model's
+`classStep` flags it instead: `RepairSt.nil`) -/
+def classStepN (nil : Loc) (ff : Table) (st : Table × List Nat) (idx : List Nat) : Table × List Nat :=
+  let p := sliceN nil (pushedOf (classForce ff idx) (classLocs st.1 idx))
+  if p.length < idx.length then (writeLocs st.1 (idx.zip p), st.2 ++ idx.take p.length) else (st.1, st.2 ++ idx)
+
+theorem length_classStepN (nil : Loc) (ff : Table) (st : Table × List Nat) (idx : List Nat) :
+    (classStepN nil ff st idx).1.length = st.1.length := by
+  simp only [classStepN]
+  split
+  · exact length_writeLocs _ _
+  · rfl
+
+theorem repairLoop3_eq (nil : Loc) (gg : Table) (idx : List Nat) (h : ∀ i ∈ idx, i < gg.length) :
+    Gen.repairLoop3 gg (idx.map Int.ofNat) 0 (List.replicate idx.length nil) = some (classLocs gg idx) := by
+  have := gatherLoop_shape (Gen.repairLoop3 gg) gg (fun f : Feature => f.loc)
+    (fun _ _ => by rw [Gen.repairLoop3]) (fun _ _ _ _ => by rw [Gen.repairLoop3]) idx []
+    (List.replicate idx.length nil) h (by simp only [List.length_replicate]; exact Nat.le_refl _)
+  simp only [List.length_nil, Int.cast_ofNat_Int, List.nil_append, List.drop_replicate, Nat.sub_self,
+    List.replicate_zero, List.append_nil] at this
+  exact this
+
+theorem repairLoop4_eq (force : Bool) (locs racc : List Loc) :
+    Gen.repairLoop4 force locs racc = some (Loc.pushAll racc locs force) :=
+  foldLoop_shape (Gen.repairLoop4 force) (fun acc y => Loc.push acc y force)
+    (fun _ => by rw [Gen.repairLoop4]) (fun _ _ _ => by rw [Gen.repairLoop4]) locs racc
+
+theorem repairLoop5_eq (idx : List Nat) (locs : List Loc) (gg : Table) (h : ∀ j ∈ idx, j < gg.length)
+    (hl : locs.length ≤ idx.length) :
+    Gen.repairLoop5 (idx.map Int.ofNat) locs 0 gg = some (writeLocs gg (idx.zip locs)) := by
+  have := writeLoop_shape (Gen.repairLoop5 (idx.map Int.ofNat)) idx
+    (fun _ _ => by rw [Gen.repairLoop5]) (fun _ _ _ _ => by rw [Gen.repairLoop5]) locs 0 gg h (by omega)
+  simpa only [Int.cast_ofNat_Int, List.drop_zero] using this
+
+theorem locationListSlice_eq (nil : Loc) (racc : List Loc) :
+    Gen.locationListSlice nil racc = sliceN nil racc.reverse := by
+  simp only [Gen.locationListSlice, sliceN, List.isEmpty_reverse]
+
+/-- one iteration of the generated class loop is `classStepN` -/
+theorem repairLoop2_cons (nil : Loc) (ff gg : Table) (keep idx : List Nat) (k : String)
+    (rest : List (String × List Int)) (hidx : ∀ j ∈ idx, j < gg.length) (hlen : gg.length = ff.length) :
+    Gen.repairLoop2 nil sortLocs ff ((k, idx.map Int.ofNat) :: rest) gg (keep.map Int.ofNat) =
+      Gen.repairLoop2 nil sortLocs ff rest (classStepN nil ff (gg, keep) idx).1
+        ((classStepN nil ff (gg, keep) idx).2.map Int.ofNat) := by
+  rw [Gen.repairLoop2]
+  simp only [List.length_map]
+  cases idx with
+  | nil =>
+    rw [if_neg (by simp)]
+    simp only [Option.bind_some, classStepN, sliceN, classLocs, List.filterMap_nil, pushedOf, sortLocs,
+      List.foldl_nil, List.reverse_nil, classForce, Loc.pushAll, Loc.pushAllD, List.isEmpty_nil, if_true,
+      List.length_cons, List.length_nil, List.append_nil, List.map_nil]
+    rfl
+  | cons i0 idx' =>
+    have hi0 : i0 < ff.length := by have := hidx i0 List.mem_cons_self; omega
+    rw [if_pos (by simp only [List.length_cons]; omega), Gen.goMake_nat]
+    simp only [Option.bind_some]
+    rw [repairLoop3_eq nil gg (i0 :: idx') hidx]
+    simp only [Option.bind_some]
+    have h0 : Gen.goIdx (List.map Int.ofNat (i0 :: idx')) 0 = some (i0 : Int) := rfl
+    rw [h0]
+    simp only [Option.bind_some]
+    rw [Gen.goIdx_lt ff i0 hi0]
+    simp only [Option.bind_some]
+    rw [repairLoop4_eq]
+    simp only [Option.bind_some, locationListSlice_eq]
+    have hforce : decide (ff[i0].key = "source") = classForce ff (i0 :: idx') := by
+      simp only [classForce, List.getElem?_eq_getElem hi0]
+      rfl
+    rw [hforce]
+    have hp : (Loc.pushAll [] (sortLocs (classLocs gg (i0 :: idx'))) (classForce ff (i0 :: idx'))).reverse =
+        pushedOf (classForce ff (i0 :: idx')) (classLocs gg (i0 :: idx')) := rfl
+    rw [hp]
+    simp only [classStepN]
+    generalize sliceN nil (pushedOf (classForce ff (i0 :: idx')) (classLocs gg (i0 :: idx'))) = p
+    by_cases hlt : p.length < (i0 :: idx').length
+    · rw [if_pos (by simp only [List.length_cons] at hlt ⊢; omega), if_pos hlt,
+        repairLoop5_eq (i0 :: idx') p gg hidx (by omega)]
+      simp only [Option.bind_some]
+      have hto : Gen.goTo (List.map Int.ofNat (i0 :: idx')) (p.length : Int) =
+          some (List.map Int.ofNat ((i0 :: idx').take p.length)) := by
+        rw [Gen.goTo_nat _ _ (by simp only [List.length_map]; omega), List.map_take]
+      rw [hto]
+      simp only [Option.bind_some, List.map_append]
+    · rw [if_neg (by simp only [List.length_cons] at hlt ⊢; omega), if_neg hlt]
+      simp only [Option.bind_some, List.map_append]
+
+/-- the generated class loop, over classes of valid indices, is the fold of `classStepN` -/
+theorem repairLoop2_eq (nil : Loc) (ff : Table) : ∀ (cs : List (String × List Nat)) (gg : Table) (keep : List Nat),
+    (∀ c ∈ cs, ∀ j ∈ c.2, j < gg.length) → gg.length = ff.length →
+    Gen.repairLoop2 nil sortLocs ff (cs.map fun c => (c.1, c.2.map Int.ofNat)) gg (keep.map Int.ofNat) =
+      some ((cs.foldl (fun st c => classStepN nil ff st c.2) (gg, keep)).1,
+        (cs.foldl (fun st c => classStepN nil ff st c.2) (gg, keep)).2.map Int.ofNat)
+  | [], gg, keep, _, _ => by rw [List.map_nil, Gen.repairLoop2]; rfl
+  | c :: cs, gg, keep, hv, hlen => by
+    rw [List.map_cons, repairLoop2_cons nil ff gg keep c.2 c.1 _ (hv c List.mem_cons_self) hlen]
+    have hl := length_classStepN nil ff (gg, keep) c.2
+    rw [repairLoop2_eq nil ff cs _ _ (fun c' hc' j hj => by
+      rw [hl]; exact hv c' (List.mem_cons_of_mem _ hc') j hj) (by rw [hl]; exact hlen)]
+    rfl
+
+/-! ### the function -/
+
+/-- `Repair(ff)` with the nil `Location` as a value, the classes visited in the order `cs` -/
+def repairOrdN (nil : Loc) (ff : Table) (cs : List (List Nat)) : Option Table :=
+  compact (cs.foldl (classStepN nil ff) (ff, [])).1 (sortNat (cs.foldl (classStepN nil ff) (ff, [])).2)
+
+theorem goCopy_replicate {α : Type} (z : α) (l : List α) : Gen.goCopy (List.replicate l.length z) l = l := by
+  rw [Gen.goCopy_le _ _ (by simp only [List.length_replicate]; exact Nat.le_refl _)]
+  simp only [List.drop_replicate, Nat.sub_self, List.replicate_zero, List.append_nil]
+
+theorem map_toNat_ofNat (l : List Nat) : (l.map Int.ofNat).map Int.toNat = l := by
+  simp only [List.map_map]
+  conv => rhs; rw [← List.map_id l]
+  apply List.map_congr_left
+  intro a _
+  simp
+
+/-- a sorted permutation of a list of indices is the model's `sortNat` -/
+theorem sortInts_eq (sortInts : List Int → List Int)
+    (hsort : ∀ l, (sortInts l).Perm l ∧ (sortInts l).Pairwise (· ≤ ·)) (keep : List Nat) :
+    sortInts (keep.map Int.ofNat) = (sortNat keep).map Int.ofNat := by
+  obtain ⟨hp, hs⟩ := hsort (keep.map Int.ofNat)
+  apply List.Perm.eq_of_pairwise (le := (· ≤ ·)) (fun a b _ _ h1 h2 => Int.le_antisymm h1 h2) hs
+  · rw [List.pairwise_map]
+    exact (sortNat_sorted keep).imp (fun h => by simpa using h)
+  · exact hp.trans ((sortNat_perm keep).map _).symm
+
+/-- the tail of `Repair`: sorted `keep`, compaction, `gg[:len(keep)]` is the model's `compact` -/
+theorem repairTail_eq (js : List Nat) (gg : Table) :
+    ((Gen.repairLoop6 (js.map Int.ofNat) gg 0).bind fun st =>
+      (Gen.goTo st.1 ((js.map Int.ofNat).length : Int)).bind fun x => some x) = compact gg js := by
+  have := compactLoop_shape Gen.repairLoop6 (fun _ _ => by rw [Gen.repairLoop6])
+    (fun _ _ _ _ => by rw [Gen.repairLoop6]) js gg 0
+  simp only [Int.cast_ofNat_Int] at this
+  rw [this]
+  simp only [compact, List.length_map]
+  cases h : compactLoop gg 0 js with
+  | none => rfl
+  | some gg' =>
+    obtain ⟨h1, h2⟩ := compactLoop_some_length js gg 0 gg' h
+    have hle : js.length ≤ gg'.length := by
+      by_cases hjs : js = []
+      · subst hjs; exact Nat.zero_le _
+      · have := h2 hjs; omega
+    simp only [Option.map_some, Option.bind_some]
+    rw [Gen.goTo_nat _ _ hle]
+    rfl
+
+/-- **the generated `Repair` is `repairOrdN`** for the order in which the map is visited, which is a
+permutation of the model's classes `Table.groups` -/
+theorem repair_gen_ord (zero : Feature) (nil : Loc) (sortInts : List Int → List Int)
+    (sprintf : String → String → List (List String) → String)
+    (rangeMap : List (String × List Int) → List (String × List Int))
+    (hfmt : ∀ f : Feature, sprintf "%q:%q" f.key f.props = classKey f)
+    (hsort : ∀ l, (sortInts l).Perm l ∧ (sortInts l).Pairwise (· ≤ ·))
+    (hrange : ∀ m, (rangeMap m).Perm m) (ff : Table) :
+    ∃ cs : List (List Nat), cs.Perm (Table.groups ff) ∧
+      Gen.repair zero nil sortLocs sortInts sprintf rangeMap ff = repairOrdN nil ff cs := by
+  -- the index map
+  have hindex := indexLoop_shape (Gen.repairLoop sprintf) (fun _ _ => by rw [Gen.repairLoop])
+    (fun f rest i m => by rw [Gen.repairLoop, hfmt]) ff
+  generalize hA : ((Table.classKeys ff).map fun k => (k, (Table.memberIdx ff k).map Int.ofNat)) = idxA at hindex
+  -- the order in which it is visited
+  have hR := hrange idxA
+  generalize hRdef : rangeMap idxA = R at hR
+  have hmemR : ∀ e ∈ R, ∃ k, e = (k, (Table.memberIdx ff k).map Int.ofNat) := by
+    intro e he
+    have := hR.subset he
+    rw [← hA] at this
+    obtain ⟨k, _, rfl⟩ := List.mem_map.mp this
+    exact ⟨k, rfl⟩
+  let csK : List (String × List Nat) := R.map fun e => (e.1, e.2.map Int.toNat)
+  have hRK : R = csK.map fun c => (c.1, c.2.map Int.ofNat) := by
+    simp only [csK, List.map_map]
+    conv => lhs; rw [← List.map_id R]
+    apply List.map_congr_left
+    intro e he
+    obtain ⟨k, rfl⟩ := hmemR e he
+    simp only [id, Function.comp, map_toNat_ofNat]
+  have hvalid : ∀ c ∈ csK, ∀ j ∈ c.2, j < ff.length := by
+    intro c hc j hj
+    obtain ⟨e, he, rfl⟩ := List.mem_map.mp hc
+    obtain ⟨k, rfl⟩ := hmemR e he
+    simp only [map_toNat_ofNat] at hj
+    obtain ⟨f, hf, _⟩ := (Table.mem_memberIdx ff k j).mp hj
+    exact (List.getElem?_eq_some_iff.mp hf).1
+  refine ⟨csK.map (·.2), ?_, ?_⟩
+  · have h1 : (R.map fun e => e.2.map Int.toNat).Perm (idxA.map fun e => e.2.map Int.toNat) := hR.map _
+    have h2 : (idxA.map fun e => e.2.map Int.toNat) = Table.groups ff := by
+      rw [← hA, List.map_map, Table.groups]
+      apply List.map_congr_left
+      intro k _
+      exact map_toNat_ofNat _
+    rw [h2] at h1
+    have h3 : csK.map (·.2) = R.map fun e => e.2.map Int.toNat := by
+      simp only [csK, List.map_map]
+      rfl
+    rw [h3]
+    exact h1
+  · simp only [Gen.repair]
+    rw [Gen.goMake_nat, Option.bind_some, goCopy_replicate, hindex, Option.bind_some, Gen.goMake3_zero,
+      Option.bind_some, hRdef, hRK]
+    have hloop := repairLoop2_eq nil ff csK ff [] hvalid rfl
+    simp only [List.map_nil] at hloop
+    rw [hloop, Option.bind_some]
+    simp only [sortInts_eq sortInts hsort]
+    rw [repairTail_eq]
+    simp only [repairOrdN, List.foldl_map]
 
 end Gts.Bridge
